@@ -94,6 +94,17 @@ def generate(rng):
         scn['events'] = [e for e in events if e['pat'] in ('TIMEOUT', 'EOF')]
     elif rng.random() < 0.15:
         scn['run_kwargs'] = {'use_poll': True}
+    if rng.random() < 0.05:
+        # a callback changes how the child matches (ignorecase) through the state dictionary; a later prompt arrives in the
+        # other case and must be answered like any other occurrence
+        scn['ic_toggle'] = True
+        scn['events'] = events = [{'pat': re.escape('Q1?'), 'tok': 'Q1?', 'resp': {'kind': rng.choice(['fn', 'method']), 'ret': 'none', 'side': 'ignorecase'}},
+                                  {'pat': re.escape('Q2?'), 'tok': 'Q2?', 'resp': {'kind': 'str', 'v': 'ans-Q2\n'}}]
+        scn['steps'] = steps = [{'say': gen_say(rng), 'dt': 5}, {'ask': 'Q1?', 'dt': rng.choice([0, 300])},
+                                {'say': 'zz\r\n', 'dt': 300}, {'ask': 'q2?', 'dt': rng.choice([0, 300, 20000])},
+                                {'say': 'bye\r\n', 'dt': 5}]
+        scn['timeout'] = rng.choice([0.3, 2.0])
+        scn.pop('run_kwargs', None)
     gen_eintr(rng, scn)
     return scn
 
@@ -123,6 +134,10 @@ def run(scn):
         w, k = r.w, r.k
         out = []
         received = []          # lines the dialogue child read, with the token it was waiting on
+        ic_on = [False]        # a callback has switched the child to ignorecase
+        waiting = [None]       # the prompt the dialogue child is waiting to have answered
+        if scn.get('ic_toggle') and (len(scn.get('events', [])) != 2 or any(e.get('shadow') or e.get('dup') for e in scn['events'])):
+            raise HarnessError('the ignorecase-toggle scenario has exactly its two events')
         said = []
         events = scn.get('events', [])
 
@@ -131,7 +146,7 @@ def run(scn):
             for e in events:
                 if e['pat'] in ('TIMEOUT', 'EOF'):
                     continue
-                if re.match(e['pat'], tok):
+                if re.match(e['pat'], tok, re.IGNORECASE if ic_on[0] else 0):
                     return e
             return None
 
@@ -166,6 +181,7 @@ def run(scn):
                 waits = win is not None and (win['resp']['kind'] == 'str' or win['resp'].get('ret') == 'str')
                 if not waits:
                     continue
+                waiting[0] = tok
                 while b'\n' not in buf:
                     try:
                         d = yield ('read', slave, 4096)
@@ -175,6 +191,7 @@ def run(scn):
                         return
                     buf += d
                 line, _, buf = buf.partition(b'\n')
+                waiting[0] = None
                 received.append((tok, line + b'\n'))
             yield ('sleep', 10)
             yield ('exit', scn.get('code', 0))
@@ -200,6 +217,10 @@ def run(scn):
 
             def cb(d):
                 cblog.append((e['pat'], d.get('event_count'), d.get('child') is (spawned[0] if spawned else None), len(r.calls) - 1))
+                if e['resp'].get('side') == 'ignorecase' and d.get('child') is not None:
+                    # a callback re-tunes the child through the state dictionary: later occurrences match case-insensitively
+                    d['child'].ignorecase = True
+                    ic_on[0] = True
                 if ret == 'str':
                     v = e['resp']['v']
                     return v if enc else v.encode('latin-1')
@@ -338,9 +359,14 @@ def run(scn):
                     for tok in ('Q1?', 'Q2?', 'Q3?'):
                         if first_winner(tok) is not None:
                             occ += consumed.count(tok)
-                    if stop == 'EOF' and occ != fired_text:
+                    if stop == 'EOF' and occ != fired_text and not scn.get('ic_toggle'):
                         out.append(Violation('C12.occurrences', '%d occurrences of event patterns in the output, %d events fired'
                                              % (occ, fired_text), None, det))
+                if scn.get('ic_toggle') and ic_on[0] and not out and waiting[0] is not None and stop == 'TIMEOUT':
+                    # the dialogue child is still waiting for the answer to a prompt that matches an event pattern since the
+                    # callback switched the child to ignorecase (two-event shape: the prediction is exact here)
+                    out.append(Violation('C12.occurrences', 'a callback set child.ignorecase; the later prompt %r matches an event pattern '
+                                         'in the other case and was never answered' % (waiting[0],), None, det))
                 # callbacks: consecutive event counts, child passed in the state dictionary
                 counts = [c[1] for c in cblog]
                 if any(c is None for c in counts) or any(not c[2] for c in cblog):
